@@ -137,7 +137,7 @@ Theorem C34_tx_rules :
     (* nothing else: an address outside all clauses is cold at the start *)
     (forall a, a <> tw_sender tx -> a <> tw_dest tx -> is_precompile (tw_spec tx) a = false ->
                (enabled (tw_spec tx) SHANGHAI = true -> a <> tw_coinbase tx) ->
-               (prague tx = true -> a <> HISTORY_STORAGE_ADDRESS /\ ~ In a (fst (tx_after_auths tx)) /\
+               (prague tx = true -> ~ In a (fst (tx_after_auths tx)) /\
                                     deleg_of tx (tw_dest tx) <> Some a) ->
                al_acc (tw_al tx) a = false -> as_acc (tx_initial_sets tx) a = false).
 Proof. exact tx_rules. Qed.
@@ -502,22 +502,22 @@ Proof. exact tx_pre_state_is_spec_below_prague. Qed.
 Theorem C34_interpreter_initial_sets_from_prague_partial :
   forall W G2 dest accts, tx_pre_state W = Some G2 -> en (w_spec W) E.PRAGUE = true ->
     Forall (fun t => snd t <= pow64 - 1) (w_auth_list W) ->
-    (forall a, a <> BLOCKHASH_STORAGE_ADDRESS -> a <> HISTORY_STORAGE_ADDRESS ->
+    (forall a,
        as_acc (tx_initial_sets (txw_of W dest accts)) a =
        acc_warm (gdb W G2) (gs G2) a || (a =? dest)
        || (match w_to W with Some _ => true | None => false end && opt_is (deleg_of (txw_of W dest accts) dest) a)) /\
     (forall a k, as_slot (tx_initial_sets (txw_of W dest accts)) a k = slot_warm (gdb W G2) (gs G2) a k).
 Proof. exact tx_pre_state_is_spec_from_prague. Qed.
 
-(* "the EIP-2935 address as the tree defines it" is false of Model/Evm.v: the tree
-   (crates/primitives/src/constants.rs) and Spec/TxWarmSpec.v use 0x25a2...a4fb, Model/Evm.v
-   pre-warms 0x0000F908...2935.  Witness: any PRAGUE world. *)
-Theorem C34_interpreter_history_address_refuted :
-  BLOCKHASH_STORAGE_ADDRESS <> HISTORY_STORAGE_ADDRESS /\
-  forall W, w_spec W = 18 ->
-    warm_preloaded W HISTORY_STORAGE_ADDRESS = (HISTORY_STORAGE_ADDRESS =? w_coinbase W) /\
-    warm_preloaded W BLOCKHASH_STORAGE_ADDRESS = true.
-Proof. exact history_address_differs. Qed.
+(* the EIP-2935 history contract (the final EIP's address and the early draft's address the
+   tree's constant holds) is not pre-warmed: it is warm at transaction start only if it is the
+   coinbase (from SHANGHAI). The tree used to pre-warm the draft address from PRAGUE, which the
+   check reported with a PRAGUE transaction probing it (fix recorded in known_findings.json). *)
+Theorem C34_interpreter_history_contract_not_prewarmed :
+  forall W, is_precompile W BLOCKHASH_STORAGE_ADDRESS = false -> is_precompile W HISTORY_STORAGE_ADDRESS = false ->
+    warm_preloaded W BLOCKHASH_STORAGE_ADDRESS = (en (w_spec W) E.SHANGHAI && (BLOCKHASH_STORAGE_ADDRESS =? w_coinbase W)) /\
+    warm_preloaded W HISTORY_STORAGE_ADDRESS = (en (w_spec W) E.SHANGHAI && (HISTORY_STORAGE_ADDRESS =? w_coinbase W)).
+Proof. exact history_address_not_prewarmed. Qed.
 
 (* the recipient of a call transaction and the delegation target its code designates are warm
    after the first frame, whatever it does *)
